@@ -15,7 +15,7 @@ from oracles.treecheck import flat_shape as shape
 from vlib.core import Leg, Result, exc_failure
 
 ID = 'C19'
-RULE = ('API cases: encoding e in {utf-8, latin-1, cp1252, cp1251, gbk, shift_jis, koi8-r, utf-16} x text = grammar script (4/8), CASE-heavy script (2/8), GO-only batches without any semicolon (1/8), any text of the shared source mix (1/8, API only), with characters drawn from what e can encode '
+RULE = ('API cases: encoding e in {utf-8, latin-1, cp1252, cp1251, gbk, shift_jis, koi8-r, utf-16; API forms also utf-16-le, utf-32-be, utf-7, iso2022_jp, hz} x text = grammar script (4/8), CASE-heavy script (2/8), GO-only batches without any semicolon (1/8), any text of the shared source mix (1/8, API only), with characters drawn from what e can encode '
         '(construction) x form in {str, bytes+encoding=e, UTF-8 bytes without encoding, non-UTF-8 Latin-1 bytes without encoding, io.StringIO} x function in {parse, '
         'parsestream, split, format + drawn valid options}; results must equal those for the str form (statement texts, tree shapes, get_type). CLI cases: argv built from '
         'a drawn option set via a flag table written from --help, input as file or stdin bytes in e, output to stdout or -o; sqlparse.cli.main(argv) in-process; the '
@@ -29,7 +29,10 @@ ENCODINGS = ['utf-8', 'latin-1', 'cp1252', 'cp1251', 'gbk', 'shift_jis', 'koi8-r
 SAMPLE_CHARS = {
     'utf-8': 'éÀЖ中😀ß€', 'latin-1': 'éÀßñ¿Ø', 'cp1252': 'éÀß€œ', 'cp1251': 'ЖжЯёЩ', 'gbk': '中文数据库', 'shift_jis': '日本語テスト',
     'koi8-r': 'ЖжЯфы', 'utf-16': 'éЖ中😀',
+    'utf-16-le': 'éЖ中😀', 'utf-32-be': 'éЖ中😀', 'utf-7': 'éЖ中+-', 'iso2022_jp': '日本語テスト', 'hz': '中文数据库~',
 }
+# codecs that are not ASCII supersets (API forms only): ASCII text is not its own encoding, 7-bit bytes are not ASCII text
+ENCODINGS_API = ENCODINGS + ['utf-16-le', 'utf-32-be', 'utf-7', 'iso2022_jp', 'hz']
 
 
 def sprinkle(laid, enc, draw):
@@ -90,7 +93,7 @@ def texts(draw, enc, wide=False):
 
 @st.composite
 def api_cases(draw):
-    enc = draw(st.sampled_from(ENCODINGS))
+    enc = draw(st.sampled_from(ENCODINGS_API))
     func = draw(st.sampled_from(['parse', 'parsestream', 'split', 'format']))
     opts = draw(O.valid_options()) if func == 'format' else {}
     form = draw(st.sampled_from(['bytes+encoding', 'bytes+encoding', 'utf8-bytes', 'latin1-bytes', 'stream', 'bytes-stream?'][:5]))
